@@ -76,13 +76,17 @@ C09(i) ==
           THEN { <<"C09.alt_reward_eq", RatNear(e.alt.reward.q[1], RewardOf(Cfg.alt_reward, p, e.a), 1)>> } ELSE {})
   ELSE {}
 
-Witness(st, wit, rows, cols, search(_), s) ==
-  \* verdict of a tiling clause: a witness is checked; without one small instances are searched in TLA+
-  IF st = 1 THEN IsTiling(s, wit, rows, cols)
-  ELSE IF NB <= SearchLimit THEN search(s)
-  ELSE FALSE
+(* Tiling clauses.  Up to SearchLimit blocks the exhaustive search in TLA+ decides (and the adapter's search must
+   agree with it); a witness, when present, is verified in any case.  Above SearchLimit a verified witness proves
+   the clause, the adapter's exhaustive "none" refutes it and an exhausted search budget leaves it undecided. *)
+TilingVerdict(st, wit, rows, cols, found, s) ==
+  IF NB <= SearchLimit THEN found /\ (st = 1 => IsTiling(s, wit, rows, cols))
+  ELSE st = 1 /\ IsTiling(s, wit, rows, cols)
 C10(i) ==
-  LET e == Ev(i)  s == e.s IN
+  LET e == Ev(i)  s == e.s
+      tg == TilesGrid(s)                  \* evaluated (once) only when NB <= SearchLimit
+      ca == CompletableByActions(s)
+  IN
   (IF IsReset(i) THEN
      { <<"C10.wellformed_blocks_shape", BlocksShape(s)>>,
        <<"C10.wellformed_blocks_numbered", BlocksNumbered(s)>>,
@@ -90,14 +94,12 @@ C10(i) ==
        <<"C10.wellformed_empty_start", EmptyStart(s)>> }
      \cup (IF s.sol_free_st = 2 /\ NB > SearchLimit THEN {} ELSE
            { <<"C10.wellformed_blocks_tile_grid",
-                 Witness(s.sol_free_st, s.sol_free, FreeRows, FreeCols, TilesGrid, s)>> })
+                 TilingVerdict(s.sol_free_st, s.sol_free, FreeRows, FreeCols, tg, s)>> })
      \cup (IF s.sol_act_st = 2 /\ NB > SearchLimit THEN {} ELSE
            { <<"C10.wellformed_completable_by_actions",
-                 Witness(s.sol_act_st, s.sol_act, PosRows, PosCols, CompletableByActions, s)>> })
-     \cup (IF NB <= SearchLimit THEN     \* the adapter's search and the search in TLA+ agree
-             { <<"C10.witness_search_agrees",
-                   /\ (s.sol_free_st = 1) = TilesGrid(s)
-                   /\ (s.sol_act_st = 1) = CompletableByActions(s)>> } ELSE {})
+                 TilingVerdict(s.sol_act_st, s.sol_act, PosRows, PosCols, ca, s)>> })
+     \cup (IF NB <= SearchLimit THEN
+             { <<"C10.witness_search_agrees", (s.sol_free_st = 1) = tg /\ (s.sol_act_st = 1) = ca>> } ELSE {})
      \cup (IF Cfg.generator \in {"toy_rot", "toy_norot"}      \* "not shuffled": block k carries number k
            THEN { <<"C10.wellformed_toy_not_shuffled", \A b \in 1..NB : BlockValue(s.blocks[b]) = b>> } ELSE {})
      \cup (IF Cfg.generator = "toy_norot"                      \* "not rotated": tiles without any rotation
